@@ -10,6 +10,7 @@
   race detector in the thorough tier), not proved.
 -/
 import Knx.TunnelTrav
+import Knx.CloseOnce
 
 namespace Props.C10
 open Knx Knx.Tun
@@ -93,5 +94,70 @@ theorem nothing_survives (s : St) (t : Nat) :
   unfold serveExit
   simp only
   split <;> exact ⟨rfl, rfl, rfl, rfl, rfl⟩
+
+/-! ### 1..n goroutines calling Close at the same time (every interleaving)
+
+  `Knx.Once` models Close as `once.Do(body)` with the body's four statements as separate steps and one
+  program counter per closer; a schedule is ANY list of goroutine numbers.  (The virtual-time harness
+  cannot drive goroutines that block on sync.Once; these theorems cover them, the real-time streams
+  C10rt / C10live observe the real code.) -/
+namespace Closers
+open Knx.Once
+
+/-- however many goroutines call Close and however they interleave: at most one disconnect request -/
+theorem at_most_one_disconnect (n : Nat) (sched : List Nat) : (run (init n) sched).dreqs ≤ 1 := by
+  have h := (inv_run sched _ (inv_init n)).dreqs
+  rw [h]; split <;> omega
+
+/-- as soon as ANY Close call has returned, exactly one disconnect request has been sent, `done` is
+    closed, the serve goroutine has been joined and the socket is closed - also for the callers that
+    only waited for the first one -/
+theorem returned_means_closed (n : Nat) (sched : List Nat) (i : Nat)
+    (h : (run (init n) sched).pcs[i]? = some Pc.returned) :
+    let s := run (init n) sched
+    s.dreqs = 1 ∧ s.doneClosed = true ∧ s.joined = true ∧ s.sockClosed = true := by
+  have inv := inv_run sched _ (inv_init n)
+  have hd := inv.ret i h
+  refine ⟨?_, ?_, ?_, ?_⟩
+  · rw [inv.dreqs, hd]; rfl
+  · rw [inv.doneC, hd]; rfl
+  · rw [inv.joined, hd]; rfl
+  · rw [inv.sock, hd]; rfl
+
+/-- Close never deadlocks: in every reachable state either all callers have returned or some caller
+    can take a step that changes the state -/
+theorem closers_never_deadlock (n : Nat) (hn : n > 0) (sched : List Nat) :
+    let s := run (init n) sched
+    (∀ (i : Nat) (pc : Pc), s.pcs[i]? = some pc → pc = Pc.returned) ∨ ∃ i, i < n ∧ step s i ≠ s := by
+  have inv := inv_run sched _ (inv_init n)
+  have hl : (run (init n) sched).pcs.length = n := by rw [run_length]; simp [Once.init]
+  have hne : (run (init n) sched).pcs ≠ [] := by
+    intro e; rw [e] at hl; simp at hl; omega
+  rcases no_deadlock _ inv hne with h | ⟨i, hi, hs⟩
+  · exact Or.inl h
+  · exact Or.inr ⟨i, by omega, hs⟩
+
+/-- ... and every step that changes the state lowers a measure that starts at 2n+4: all Close calls
+    have returned after at most 2n+4 effective steps, whatever the schedule -/
+theorem closers_make_progress (n : Nat) (sched : List Nat) (i : Nat) :
+    let s := run (init n) sched
+    step s i = s ∨ measure (step s i) < measure s :=
+  step_progress _ i (inv_run sched _ (inv_init n))
+
+theorem measure_init (n : Nat) : measure (init n) = 2 * n + 4 := by
+  simp only [Once.measure, Once.init, progressOf]
+  induction n with
+  | zero => rfl
+  | succ k ih =>
+    simp only [List.replicate_succ, List.map_cons, List.sum_cons, rank] at ih ⊢
+    omega
+
+/-- non-vacuity: three closers, one schedule in which the second and third arrive while the first is
+    inside the body: all return, one disconnect request -/
+example : (run (init 3) [0, 1, 0, 2, 0, 0, 0, 1, 2]).pcs = [.returned, .returned, .returned]
+    ∧ (run (init 3) [0, 1, 0, 2, 0, 0, 0, 1, 2]).dreqs = 1 := by decide
+
+end Closers
+
 
 end Props.C10
